@@ -299,7 +299,9 @@ func (r *Reader) parseWorksheet(data []byte, name string, index int) (*Sheet, er
 
 	// The grid below is dense: refuse dimensions that only a corrupt (or hostile)
 	// reference such as XFD1048576 in an otherwise empty sheet would produce.
-	if maxRow < 0 || maxCol < 0 || int64(maxRow)*int64(maxCol+1) > maxSheetCells {
+	// (compared by division: the row number is written in the file and rows x
+	// columns can exceed what an int64 holds)
+	if maxRow < 0 || maxCol < 0 || int64(maxCol) >= maxSheetCells || int64(maxRow) > maxSheetCells/int64(maxCol+1) {
 		return nil, fmt.Errorf("sheet %q is too large for a dense grid: %d rows x %d columns", name, maxRow, maxCol+1)
 	}
 
